@@ -92,6 +92,38 @@ def centred_is_zero(M):
     return all(M[i][j] + g - col[j] - col[i] == 0 for i in range(n) for j in range(n))
 
 
+def matrix_rank(M):
+    """exact rank of a matrix of Fractions (Gaussian elimination)"""
+    A = [list(map(Fraction, r)) for r in M]
+    rank, rows, cols = 0, len(A), len(A[0]) if A else 0
+    for c in range(cols):
+        piv = next((i for i in range(rank, rows) if A[i][c] != 0), None)
+        if piv is None:
+            continue
+        A[rank], A[piv] = A[piv], A[rank]
+        for i in range(rank + 1, rows):
+            if A[i][c] != 0:
+                f = A[i][c] / A[rank][c]
+                A[i] = [a - f * b for a, b in zip(A[i], A[rank])]
+        rank += 1
+        if rank == rows:
+            break
+    return rank
+
+
+def centred_points_rank(rows):
+    n = len(rows)
+    mean = [sum(r[a] for r in rows) / n for a in range(len(rows[0]))]
+    return matrix_rank([[v - m for v, m in zip(r, mean)] for r in rows])
+
+
+def centred_matrix_rank(M):
+    n = len(M)
+    col = [sum(M[i][j] for i in range(n)) / n for j in range(n)]
+    g = sum(col) / n
+    return matrix_rank([[M[i][j] + g - col[j] - col[i] for j in range(n)] for i in range(n)])
+
+
 def rows_identical(rows):
     return all(r == rows[0] for r in rows)
 
